@@ -18,11 +18,13 @@ for d in sorted(os.listdir(os.path.join(ROOT, "seeded"))):
             how = "VIOLATION no-failing-input-found"
         else:
             how = "MISSED (exit %s)" % ck.get("exit")
+    if m.get("obsolete"):
+        how = "obsolete: " + str(m["obsolete"]).replace("|", "/")[:200]
     earlier = [e for e in c.get("earlier_check_results", []) if e]
     hist = ""
     if earlier and not all(e.get("exit") == 1 for e in earlier):
         hist = " (missed before the check was strengthened)"
-    rows.append("| %s | %s | %s | %s | %s%s |" % (d, m["property"], m["summary"].replace("|", "/")[:160],
+    rows.append("| %s | %s | %s | %s | %s%s |" % (d + (" (r%s)" % m["round"] if m.get("round") else ""), m["property"], m["summary"].replace("|", "/")[:160],
                 m.get("needs", "").replace("|", "/")[:120], how, hist))
 print("| seed | property | change | needs | `./check <property> quick` result |\n|---|---|---|---|---|")
 print("\n".join(rows))
